@@ -12,6 +12,7 @@
 //   R4  in bufferList.pop: the plain read `*b.size` -> vPlainLoadI32("*b.size", b.size)
 //   R5  gopool.Go(f) -> vGo(f)   (stream.go)
 //   R7  syscall.RawSyscall(SYS_READ,..) / syscall.Syscall(SYS_WRITE|SYS_WRITEV,..) -> vSysRead/vSysWrite/vSysWritev(..)
+//   R8  s.asyncGoroutineWg.Add(n) / .Done() / .Wait() -> vWgAdd(&s.asyncGoroutineWg, n) / vWgDone(..) / vWgWait(..)
 //   R6  in Session.wakeUpPeer / Session.hotRestart / Session.send: s.writeEventData(..) is preceded by
 //       vYield("writeEvent")
 // With no scheduler installed every v* helper is a pass-through.
@@ -106,6 +107,13 @@ func main() {
 				switch x := n.(type) {
 				case *ast.CallExpr:
 					if se, ok := x.Fun.(*ast.SelectorExpr); ok {
+						if in, ok := se.X.(*ast.SelectorExpr); ok && in.Sel.Name == "asyncGoroutineWg" {
+							// R8: the callback goroutines' WaitGroup goes through a shadow counter so that Wait() can yield
+							edits = append(edits, edit{off(x.Pos()), off(x.Lparen) + 1, "vWg" + se.Sel.Name + "(&" + text(in)})
+							if len(x.Args) > 0 {
+								edits = append(edits, edit{off(x.Lparen) + 1, off(x.Lparen) + 1, ", "})
+							}
+						}
 						if id, ok := se.X.(*ast.Ident); ok {
 							if id.Name == "atomic" && se.Sel.Name != "AddUint64" && se.Sel.Name != "LoadUint64" {
 								// R1
